@@ -11,64 +11,64 @@ Definition honest (st : lstate) (c : cat) : Prop :=
   (forall id e d, l_svcs st !! id = Some e -> se_sync e = true -> se_del e = false -> se_def e = Some d -> holds_svc c id d) /\
   (forall id e d, l_chks st !! id = Some e -> ce_sync e = true -> ce_del e = false -> ce_def e = Some d -> holds_chk c id d).
 
-(* setServiceStateLocked computes InSync from the OLD DEFINITION alone: the new entry is in sync
-   iff the same definition is re-added, whatever the old entry's own flags said *)
+(* setServiceStateLocked: the new entry is in sync only when it replaces a live, in-sync entry
+   that carried the same definition *)
 Lemma add_service_flag id d tok loc st st' r k e' :
   add_service id d tok loc st = (st', r) -> l_svcs st' !! k = Some e' -> se_sync e' = true ->
   l_svcs st !! k = Some e' \/
-  (k = id /\ se_def e' = Some d /\ se_del e' = false /\ exists old, l_svcs st !! id = Some old /\ se_def old = Some d).
+  (k = id /\ se_def e' = Some d /\ se_del e' = false /\
+   exists old, l_svcs st !! id = Some old /\ se_def old = Some d /\ se_sync old = true /\ se_del old = false).
 Proof.
   unfold add_service. destruct (l_svcs st !! id) as [old|] eqn:L.
-  - destruct (se_def old) as [od|] eqn:F; [|intros [= <- _]; auto].
-    intros [= <- _]. cbn. intros L' S. apply lookup_insert_Some in L' as [[<- <-]|[_ L']]; [|auto].
-    right. cbn in *. apply bool_decide_eq_true in S. subst od. eauto 8.
+  - intros [= <- _]. cbn. intros L' S. apply lookup_insert_Some in L' as [[<- <-]|[_ L']]; [|auto].
+    right. cbn in *. apply andb_true_iff in S as [S Sm]. apply andb_true_iff in S as [So Sd].
+    apply negb_true_iff in Sd. unfold same_svc in Sm. destruct (se_def old) as [od|] eqn:F; [|discriminate].
+    apply bool_decide_eq_true in Sm. subst od. eauto 10.
   - intros [= <- _]. cbn. intros L' S. apply lookup_insert_Some in L' as [[<- <-]|[_ L']]; [discriminate|auto].
 Qed.
 
 Lemma add_check_flag id d tok loc st st' r k e' :
   add_check id d tok loc st = (st', r) -> l_chks st' !! k = Some e' -> ce_sync e' = true ->
   l_chks st !! k = Some e' \/
-  (k = id /\ ce_def e' = Some d /\ ce_del e' = false /\ exists old, l_chks st !! id = Some old /\ ce_def old = Some d).
+  (k = id /\ ce_def e' = Some d /\ ce_del e' = false /\
+   exists old, l_chks st !! id = Some old /\ ce_def old = Some d /\ ce_sync old = true /\ ce_del old = false).
 Proof.
   unfold add_check. destruct (negb (N.eqb (ck_sid d) 0) && negb (is_some (l_svcs st !! ck_sid d))); [intros [= <- _]; auto|].
   destruct (l_chks st !! id) as [old|] eqn:L.
-  - destruct (ce_def old) as [od|] eqn:F; [|intros [= <- _]; auto].
-    intros [= <- _]. cbn. intros L' S. apply lookup_insert_Some in L' as [[<- <-]|[_ L']]; [|auto].
-    right. cbn in *. apply bool_decide_eq_true in S. subst od. eauto 8.
+  - intros [= <- _]. cbn. intros L' S. apply lookup_insert_Some in L' as [[<- <-]|[_ L']]; [|auto].
+    right. cbn in *. apply andb_true_iff in S as [S Sm]. apply andb_true_iff in S as [So Sd].
+    apply negb_true_iff in Sd. unfold same_chk in Sm. destruct (ce_def old) as [od|] eqn:F; [|discriminate].
+    apply bool_decide_eq_true in Sm. subst od. eauto 10.
   - intros [= <- _]. cbn. intros L' S. apply lookup_insert_Some in L' as [[<- <-]|[_ L']]; [discriminate|auto].
 Qed.
 
 Lemma add_service_chks id d tok loc st st' r : add_service id d tok loc st = (st', r) -> l_chks st' = l_chks st.
-Proof.
-  unfold add_service. destruct (l_svcs st !! id) as [old|]; [destruct (se_def old)|]; intros [= <- _]; reflexivity.
-Qed.
+Proof. unfold add_service. destruct (l_svcs st !! id) as [old|]; intros [= <- _]; reflexivity. Qed.
 Lemma add_check_svcs id d tok loc st st' r : add_check id d tok loc st = (st', r) -> l_svcs st' = l_svcs st.
 Proof.
   unfold add_check. destruct (_ && _); [intros [= <- _]; reflexivity|].
-  destruct (l_chks st !! id) as [old|]; [destruct (ce_def old)|]; intros [= <- _]; reflexivity.
+  destruct (l_chks st !! id) as [old|]; intros [= <- _]; reflexivity.
 Qed.
 
-(* re-adding a definition is harmless when the entry it replaces was live and in sync *)
+(* no local add marks in sync an entry the catalog does not hold *)
 Theorem add_service_honest id d tok loc st st' r c :
-  (forall old, l_svcs st !! id = Some old -> se_def old = Some d -> se_sync old = true /\ se_del old = false) ->
   add_service id d tok loc st = (st', r) -> honest st c -> honest st' c.
 Proof.
-  intros Hre A [Hs Hc]. split.
+  intros A [Hs Hc]. split.
   - intros k e' dk L' S D F.
-    destruct (add_service_flag _ _ _ _ _ _ _ _ _ A L' S) as [L|(-> & F' & _ & old & Lo & Fo)]; [eauto|].
-    destruct (Hre old Lo Fo) as [So Do]. assert (dk = d) by congruence. subst dk. eauto.
+    destruct (add_service_flag _ _ _ _ _ _ _ _ _ A L' S) as [L|(-> & F' & _ & old & Lo & Fo & So & Do)]; [eauto|].
+    assert (dk = d) by congruence. subst dk. eauto.
   - rewrite (add_service_chks _ _ _ _ _ _ _ A). exact Hc.
 Qed.
 
 Theorem add_check_honest id d tok loc st st' r c :
-  (forall old, l_chks st !! id = Some old -> ce_def old = Some d -> ce_sync old = true /\ ce_del old = false) ->
   add_check id d tok loc st = (st', r) -> honest st c -> honest st' c.
 Proof.
-  intros Hre A [Hs Hc]. split.
+  intros A [Hs Hc]. split.
   - rewrite (add_check_svcs _ _ _ _ _ _ _ A). exact Hs.
   - intros k e' dk L' S D F.
-    destruct (add_check_flag _ _ _ _ _ _ _ _ _ A L' S) as [L|(-> & F' & _ & old & Lo & Fo)]; [eauto|].
-    destruct (Hre old Lo Fo) as [So Do]. assert (dk = d) by congruence. subst dk. eauto.
+    destruct (add_check_flag _ _ _ _ _ _ _ _ _ A L' S) as [L|(-> & F' & _ & old & Lo & Fo & So & Do)]; [eauto|].
+    assert (dk = d) by congruence. subst dk. eauto.
 Qed.
 
 (* the other mutators only ever clear the flag *)
@@ -97,14 +97,23 @@ Proof.
   apply lookup_insert_Some in L' as [[<- <-]|[_ L']]; [discriminate|eauto].
 Qed.
 
-(* IsSame(nil): a local add over a placeholder is a nil dereference *)
+(* a local add over a placeholder (definition nil) replaces it by a live entry that is out of
+   sync (before 9a2a9bf this was a nil dereference in IsSame) *)
 Theorem add_service_over_placeholder id d tok loc st e :
-  l_svcs st !! id = Some e -> se_def e = None -> add_service id d tok loc st = (st, RPanic).
-Proof. intros L F. unfold add_service. rewrite L, F. reflexivity. Qed.
+  l_svcs st !! id = Some e -> se_def e = None ->
+  add_service id d tok loc st =
+  (LS (l_node st) (<[id := SE (Some d) tok false false loc]> (l_svcs st)) (l_chks st), ROk).
+Proof.
+  intros L F. unfold add_service, same_svc. rewrite L, F. rewrite !andb_false_r. reflexivity.
+Qed.
 
 Theorem add_check_over_placeholder id d tok loc st e :
-  ck_sid d = 0%N -> l_chks st !! id = Some e -> ce_def e = None -> add_check id d tok loc st = (st, RPanic).
-Proof. intros Z L F. unfold add_check. rewrite Z, L, F. reflexivity. Qed.
+  ck_sid d = 0%N -> l_chks st !! id = Some e -> ce_def e = None ->
+  add_check id d tok loc st =
+  (LS (l_node st) (l_svcs st) (<[id := CE (Some d) tok false false loc]> (l_chks st)), ROk).
+Proof.
+  intros Z L F. unfold add_check, same_chk. rewrite Z, L, F. cbn. rewrite !andb_false_r. reflexivity.
+Qed.
 
 (* ------------------------------------------------------------------ agent-style histories keep the hypotheses true *)
 
@@ -141,11 +150,7 @@ Proof.
       destruct (decide (id = ck_sid dk)) as [<-|Hne]; [exists e; rewrite lookup_insert; auto|].
       exists s. rewrite lookup_insert_ne by exact Hne. auto.
     - rewrite lookup_insert_ne by exact Z. exact W3. }
-  destruct (l_svcs st !! id) as [old|] eqn:L.
-  - destruct (se_def old) as [od|] eqn:F.
-    + intros [= <- <-]. apply G; cbn; eauto.
-    + intros [= <- <-]. split; [repeat split; assumption|discriminate].
-  - intros [= <- <-]. apply G; cbn; eauto.
+  destruct (l_svcs st !! id) as [old|] eqn:L; intros [= <- <-]; apply G; cbn; eauto.
 Qed.
 
 Lemma add_check_wf id d tok loc st st' r :
@@ -158,11 +163,7 @@ Proof.
   { intros e Fe. split; [exact W1|split; [|exact W3]]. cbn.
     intros k x L D. apply lookup_insert_Some in L as [[<- <-]|[_ L]]; eauto. }
   destruct (_ && _); [intros [= <- <-]; split; [repeat split; assumption|reflexivity]|].
-  destruct (l_chks st !! id) as [old|] eqn:L.
-  - destruct (ce_def old) as [od|] eqn:F.
-    + intros [= <- <-]. split; [apply G; reflexivity|reflexivity].
-    + intros [= <- <-]. split; [repeat split; assumption|reflexivity].
-  - intros [= <- <-]. split; [apply G; reflexivity|reflexivity].
+  destruct (l_chks st !! id) as [old|] eqn:L; intros [= <- <-]; (split; [apply G; reflexivity|reflexivity]).
 Qed.
 
 Lemma add_checks_wf cs tok loc st st' r id :
